@@ -703,6 +703,9 @@ class Item:
         self.forloops = []  # (anchor, k, invariant text)
         self.rename = None
         self.tail = False
+        self.entry = ""
+        self.novis = False
+        self.tailproof = ""
         self.nobody = False
         self.twin = True
         # outputs
@@ -735,6 +738,10 @@ def parse_template(text):
                 cur.closures.append((data[1], data[2], body.strip()))
             elif kind == "forloop":
                 cur.forloops.append((data[1], data[2], body))
+            elif kind == "tailproof":
+                cur.tailproof = body
+            elif kind == "entry":
+                cur.entry = body
             else:
                 where, anchor, k = data
                 cur.inserts.append((where, anchor, k, body))
@@ -780,6 +787,8 @@ def parse_template(text):
             cur = None
         elif d == "contract":
             pending = ("contract", None, [])
+        elif d == "entry":
+            pending = ("entry", None, [])
         elif d in ("after", "before", "closure", "forloop"):
             mm = ANCHOR_RE.match(rest)
             if not mm:
@@ -803,10 +812,13 @@ def parse_template(text):
             cur.rename = rest
         elif d == "tail":
             cur.tail = True
+            pending = ("tailproof", None, [])
         elif d == "nobody":
             cur.nobody = True
         elif d == "notwin":
             cur.twin = False
+        elif d == "novis":
+            cur.novis = True
         else:
             raise ExtractError(f"template line {i+1}: unknown sub-directive //%{d}")
         i += 1
@@ -884,7 +896,7 @@ def extract_item(item, meta, mutant=None, twin=False):
     fired = item.fired
     builtin_rules(src, alltoks, ctoks, ed, features, fired)
 
-    if item.kind == "struct":
+    if item.kind == "struct" and not item.novis:
         # fields -> pub
         if bi is not None:
             widen_fields(toks, bi, ei, ed, fired)
@@ -972,6 +984,8 @@ def extract_item(item, meta, mutant=None, twin=False):
                 ed.replace(toks[bi].start, toks[bi].start, "\n" + item.contract.rstrip() + "\n", "R-ann(contract)")
         if twin and item.twin:
             ed.replace(toks[bi].end, toks[bi].end, " assert(false); /*TWIN*/ ", "TWIN")
+        if item.entry:
+            ed.replace(toks[bi].end, toks[bi].end, "\n" + item.entry.rstrip() + "\n", "R-ann")
         if item.tail:
             # tail expression: after the last `;` or `}`-terminated statement at depth 1 ... we
             # only support the simple case: the last statement is an expression with no trailing ;
@@ -991,7 +1005,7 @@ def extract_item(item, meta, mutant=None, twin=False):
                 if tt.text in ("return", "break", "?"):
                     raise ExtractError(f"{item.name}: R-tail refused (tail contains {tt.text})")
             ed.replace(ts.start, ts.start, "let vp_ret = ", "R-tail")
-            ed.replace(toks[ei - 1].end, toks[ei - 1].end, "; vp_ret", "R-tail")
+            ed.replace(toks[ei - 1].end, toks[ei - 1].end, ";\n" + item.tailproof.rstrip() + "\n vp_ret", "R-tail")
             fired.add("R-tail")
     # R-for: `for P in E { B }` -> `let mut it = vp_into_iter(E); loop INV { match it.next() { Some(P) => { B } None => break, } }`
     for n_for, (anchor, k, inv) in enumerate(item.forloops):
